@@ -60,6 +60,9 @@ PROPS = {
     },
     "C07": {
         "lean_modules": ["Props.Facts07"],
+        # the model of Update *is* the keymap the property speaks of: a state that differs from
+        # it after a key sequence is a key that did not do what the keymap says
+        "correspondence_is_failure": {"ui": True},
         "groups": [{"name": "C07", "quick": 400, "thorough": 12000, "workers": 16}],
         "rule": "worlds over the TLS simulator: a thread of 1..8 notes (plain-text bodies containing URLs of other objects, so numbered links can be opened), a paged reply collection under the leaf (incl. an empty first page, comments answering another post, a missing collection), two actors on different hosts, multi-author posts (a foreign-host author turns the post into an error item), a paged outbox of 0..13 activities (some by another actor), an empty collection, a 404; started with Subcommand(open, <start>) and driven by 3..27 key tokens: j k g h l space c r a o p b, numbers followed by . / Enter / Esc / Backspace / another key (0, over-long numbers), :open <url>, :feed, bogus commands, arbitrary bytes, terminal resizes between keys and in the middle of typing (often one dimension only); "
                 "after every token (once loads have settled, detected through the shim) compared: mode, buffer, highlighted item, the window of items around the cursor, presence of frontier/children, base point; non-trivial = at least three tokens; distinct by op content",
@@ -163,6 +166,7 @@ PROPS = {
         "assumptions": ["JSON cannot produce NaN or infinities (encoding/json rejects out-of-range literals)"],
     },
     "C18": {
+        "lean_modules": ["Props.Gen18"],
         "correspondence_is_failure": {"history": True, "feed": True},
         "groups": [{"name": "C18", "quick": 4000, "thorough": 100000},
                    {"name": "C18x", "quick": 6, "thorough": 9, "workers": 1}],
@@ -184,7 +188,7 @@ PROPS = {
         "assumptions": ["Config.Safe is the only configuration hypothesis used by the panic-freedom theorems of C06/C07/C20"],
     },
     "C20": {
-        "lean_modules": ["Props.Facts19", "Props.C20b"],
+        "lean_modules": ["Props.Facts19", "Props.C20b", "Props.Facts20"],
         "groups": [{"name": "C20", "quick": 600, "thorough": 20000, "workers": 12},
                    {"name": "media", "quick": 600, "thorough": 20000, "workers": 12}],
         "rule": "hooks of 1..5 arguments drawn from exact placeholders, embedded/near placeholders, dashes and empty strings, with the program itself sometimes named like a placeholder; links with spaces, quotes, shell metacharacters, leading dashes, newlines, placeholder look-alikes; "
@@ -203,7 +207,7 @@ PROPS = {
         "assumptions": ["width >= 1 for the width clause"],
     },
     "C16": {
-        "lean_modules": ["Props.C16b"],
+        "lean_modules": ["Props.C16b", "Props.Gen16"],
         "groups": [{"name": "C16", "quick": 6000, "thorough": 200000}, {"name": "C07", "quick": 160, "thorough": 4000, "workers": 16},
                    {"name": "C16x", "quick": 0, "thorough": 7, "workers": 1}],
         "rule": "prefix/centered/suffix of 0..8 styled lines each x heights 1..16; non-trivial = height exceeds the centred text (buffers are computed); distinct by op content",
@@ -307,10 +311,10 @@ MANIFEST_TEXT = {
         "technique": "Lean 4 proof (case analysis over a JSON datatype, bit-exact IEEE-754 model) + differential correspondence",
     },
     "C18": {
-        "text": "Refinement theorems in Lean: every history op sequence keeps the invariant, never panics and denotes what a zipper computes; every feed operation preserves the representation of a two-sided sequence, lookups/containment/parent-child agree with positions, append/prepend never move items, moves stay in bounds. Tied to history.go/feed.go by differential correspondence after every step, exhaustive up to a length bound.",
+        "text": "Refinement theorems in Lean: every history op sequence keeps the invariant, never panics and denotes what a zipper computes; every feed operation preserves the representation of a two-sided sequence, lookups/containment/parent-child agree with positions, append/prepend never move items, moves stay in bounds. Tied to history.go/feed.go twice: both files are translated to Lean on every run (extract/go2lean.go -> Generated/GoCode.lean) and every method of the generated code is proved equal to the model's (Props/Gen18.lean); and by differential correspondence after every step, exhaustive up to a length bound.",
         "design_ref": "DESIGN.md §5 C18",
         "note": "Trusted: Lean kernel; correspondence check (testing; exhaustive to length 7 quick / 9 thorough); slice aliasing and Go map semantics as modelled.",
-        "technique": "Lean 4 proof (refinement to zipper / two-sided sequence by induction over operations) + differential correspondence",
+        "technique": "Lean 4 proof (refinement to zipper / two-sided sequence by induction over operations) over a model proved equal to the Lean translation of the Go source regenerated on every run + differential correspondence",
     },
     "C19": {
         "text": "Lean theorems for all strings and all decoded configurations: hexToAnsi accepts exactly '#' + six hex digits and yields three decimal components 0..255; an accepted configuration satisfies Config.Safe (non-empty hook, cache >= 1, preload/timeout >= 0, well-formed colours), a rejected one names an invalid key, valid ones are accepted, the defaults are safe. Tied to config.go by differential correspondence through a package-internal shim on generated TOML files; colour well-formedness is also checked on every implementation output; thorough walks all 16^6 colours.",
@@ -331,7 +335,7 @@ MANIFEST_TEXT = {
         "technique": "Lean 4 proof (wrap_width + cache invariant by induction over the width sequence) + differential correspondence",
     },
     "C16": {
-        "text": "Lean theorems for all prefix/centred/suffix texts and all heights >= 1: CenterVertically returns exactly h lines, centred as specified; ReplaceLastLine keeps the height for texts of >= 2 lines; SetLength is newline-free. Tied to ansi.go by differential correspondence; the height predicate is evaluated on every implementation output.",
+        "text": "Lean theorems for all prefix/centred/suffix texts and all heights >= 1: CenterVertically returns exactly h lines, centred as specified; ReplaceLastLine keeps the height for texts of >= 2 lines; SetLength is newline-free. Tied to ansi.go twice: Height, CenterVertically, ReplaceLastLine, SetLength and Squash are translated to Lean on every run (extract/go2lean2.go -> Generated/GoCode.lean) and proved equal to the model's functions (Props/Gen16.lean); and by differential correspondence; the height predicate is evaluated on every implementation output.",
         "design_ref": "DESIGN.md §5 C16",
         "note": "Trusted: Lean kernel; correspondence check (testing); strings.Split/Join/Count/Repeat/LastIndex as modelled on character lists.",
         "technique": "Lean 4 proof (list lemmas on split/join) + differential correspondence",
